@@ -50,6 +50,17 @@ Theorem render_for_output_depends_on_arguments_only : forall O ps d p rng x args
   | (o1, _, k1), (o2, _, k2) => o1 = o2 /\ k1 = k2
   end.
 Proof. exact NonInterf.render_for_noninterference. Qed.
+(* ... and for arbitrary arguments: it suffices that the argument expressions cannot tell the two callers apart, now and
+   after the partial has moved the shared counters (frames related by `strict` differ in counter contents only) *)
+Theorem render_for_output_general : forall O ps d p rng x args s1 s2 k, wfr s1 -> wfr s2 ->
+  eval_expr O p s1 = eval_expr O p s2 -> eval_range O rng s1 = eval_range O rng s2 ->
+  (forall t1 t2, strict (fr s1) (fr t1) -> strict (fr s2) (fr t2) -> ixobj (fr t1) = ixobj (fr t2) ->
+     eval_args O args t1 [] = eval_args O args t2 []) ->
+  ixobj (fr s1) = ixobj (fr s2) ->
+  match rnode O ps (render O ps d) (NRender p (Some (rng, x)) args) s1 k, rnode O ps (render O ps d) (NRender p (Some (rng, x)) args) s2 k with
+  | (o1, _, k1), (o2, _, k2) => o1 = o2 /\ k1 = k2
+  end.
+Proof. exact NonInterf.render_for_noninterference_gen. Qed.
 (* the two-run invariant behind both: runtimes that agree above a sandbox (frames, the sandbox's own data,
    the registers pushed since) and on the counters stay so under every template, with equal outcome and sink *)
 Theorem indistinguishable_runtimes_stay_so : forall O ps d l, G2 (render O ps d l).
@@ -92,6 +103,7 @@ Proof. split; [discriminate|]. vm_compute. repeat split; try reflexivity; discri
 
 Print Assumptions render_output_depends_on_arguments_only.
 Print Assumptions render_for_output_depends_on_arguments_only.
+Print Assumptions render_for_output_general.
 Print Assumptions indistinguishable_runtimes_stay_so.
 Print Assumptions include_is_inline.
 Print Assumptions render_view_closed.
